@@ -3,7 +3,7 @@ import numpy as np
 
 from .. import gen_hier, mdeck as md, mrender as mr, semcheck
 from ..runner import ok, violation, case_sig
-from .c05 import run_semantic
+from .c05 import run_semantic, with_options
 
 PID = 'C09'
 LEVEL = 'exploration'
@@ -33,10 +33,10 @@ ASSUMPTIONS = [
 
 def strategy(tier):
     from hypothesis import strategies as st
-    return st.one_of(
+    return with_options(st.one_of(
         gen_hier.hier_case(tier, {'lattice': True}),
         gen_hier.hier_case(tier, {'lattice': 'force', 'max_depth': 2}),
-        gen_hier.like_case(tier))
+        gen_hier.like_case(tier)))
 
 
 def budget(tier):
